@@ -256,7 +256,7 @@ pub(super) fn build_action(a: &Value) -> Action {
                 return_address: addr(u("n1")),
                 timeout_height: ibc_types::core::client::Height::new(2, 100).unwrap(),
                 timeout_time: 200_000_000_000,
-                source_channel: ibc_types::core::channel::ChannelId::new(0),
+                source_channel: ibc_types::core::channel::ChannelId::new(10),
                 fee_asset: denom(s("fa")),
                 memo,
                 bridge_address: if from == 0 { None } else { Some(addr(from)) },
@@ -479,7 +479,7 @@ pub(super) fn materialise(state: &mut StateDelta<Snapshot>, t: &Value, base: Opt
         if changed {
             state
                 .put_ibc_channel_balance(
-                    &ibc_types::core::channel::ChannelId::new(0),
+                    &ibc_types::core::channel::ChannelId::new(10),
                     &denom(asset),
                     real_amount(new.as_u64().unwrap(), asset),
                 )
